@@ -250,6 +250,7 @@ pub fn boundary_numbers() -> Vec<&'static str> {
         "9223372036854775807", "9223372036854775808", "18446744073709551615", "18446744073709551616",
         "-9223372036854775808", "-9223372036854775809", "1e19", "1.8446744073709552e19",
         "5e-324", "1.7976931348623157e308", "1e-7", "123456789012345680000", "2.5e-10",
+        "-1e19", "-10000000000000000000", "-12345678901234567890", "-1.8446744073709550e19", "-18446744073709551615", "-1e20", "12345678901234567890", "1e18", "-1e18", "-4611686018427387904.0",
     ]
 }
 
